@@ -156,6 +156,8 @@ class Scenario:
         self.guard = DecoderGuard() if guard else None
         self._lp = None
         self.starter = None
+        self.client_start_in_task = False
+        self.start_result = None
 
     def __enter__(self):
         install(self.sched, self.net)
@@ -237,10 +239,20 @@ class Scenario:
         """Start the node.  A server blocks in accept inside start(), so it is started from its own task."""
         if self.node is None:
             self.make_node()
-        if self.role == "client":
+        if self.role == "client" and not self.client_start_in_task:
             self.node.start()
         else:
-            self.starter = self.sched.spawn("starter", self.node.start)
+            # (client_start_in_task: start() runs in a task of its own, so that the scheduler can interleave it with the
+            # state-machine thread it has just started; the call's outcome is kept in start_result)
+            def run_start():
+                try:
+                    self.node.start()
+                    self.start_result = "returned"
+                except vsched.ControlException:
+                    raise
+                except BaseException as ex:
+                    self.start_result = ex
+            self.starter = self.sched.spawn("starter", run_start)
 
     def connect_transport(self, timeout=10):
         s = self.sched
